@@ -94,6 +94,7 @@ package codegen
 //@   contains typeid typename union unsigned using virtual void volatile wchar_t while xor xor_eq
 //@   contains kernel vertex fragment device constant threadgroup thread half uint ushort uchar metal
 //@   contains main
+//@   contains naga_div naga_mod naga_modf naga_frexp naga_atomic_cmp_exch naga_int_dot
 //@   none-suffix _
 //
 // Helpers of the expression/statement remapper: every handle goes through the
@@ -230,3 +231,30 @@ package codegen
 //@   ensures [div-by-zero-not-folded] op == ir.BinaryDivide && is(left, ir.LiteralI32) && is(right, ir.LiteralI32) && int32(right.(ir.LiteralI32)) == 0 ==> isnil(result)
 //@   ensures [unsupported-not-folded] op != ir.BinaryAdd && op != ir.BinarySubtract && op != ir.BinaryMultiply && op != ir.BinaryDivide ==> isnil(result)
 //@   pure
+
+// ---- operands that must be parenthesised (C04) ---------------------------------------------------------
+//
+// An operand that is printed inline as `a op b`, `c ? t : f` or `1 + n` changes
+// meaning inside a larger expression unless it is parenthesised.
+//
+//@ func (*Writer).needsParensInContext
+//@   mode bv
+//@   tags C04
+//@   at return assert [binary] is(expr.Kind, ir.ExprBinary) ==> result
+//@   at return assert [select] is(expr.Kind, ir.ExprSelect) ==> result
+//@   at return assert [array-length] is(expr.Kind, ir.ExprArrayLength) ==> result
+
+// ---- the address space that selects the bounds-check policy (C15) ---------------------------------
+//
+// The policy for an access is chosen by the address space of the pointer it goes
+// through: a global's own space, function space for locals, and for a pointer
+// *parameter* the space written in its type (ptr<storage, T> arguments get the
+// buffer policy, not the index policy).
+//
+//@ func (*Writer).getPointerAddressSpace
+//@   mode bv
+//@   tags C15
+//@   at return assert [global] is(old(w.currentFunction.Expressions[int(handle)].Kind), ir.ExprGlobalVariable) && result1 ==> result0 == old(w.module.GlobalVariables[int(w.currentFunction.Expressions[int(handle)].Kind.(ir.ExprGlobalVariable).Variable)].Space)
+//@   at return assert [local] old(w.currentFunction != nil && int(handle) < len(w.currentFunction.Expressions)) && is(old(w.currentFunction.Expressions[int(handle)].Kind), ir.ExprLocalVariable) ==> result1 && result0 == ir.SpaceFunction
+//@   at return assert [pointer-argument] is(old(w.currentFunction.Expressions[int(handle)].Kind), ir.ExprFunctionArgument) && is(ty, ir.PointerType) ==> result1 && result0 == ty.(ir.PointerType).Space
+//@   at return assert [value-argument] is(old(w.currentFunction.Expressions[int(handle)].Kind), ir.ExprFunctionArgument) && !is(ty, ir.PointerType) ==> result1 && result0 == ir.SpaceFunction
